@@ -2,7 +2,7 @@
 # usage: eval_seed.sh <dir with patch.diff, demo_*.py, meta.json> <property id> [tier] [more property ids...]
 # Confirms the seeded change in a fresh scratch worktree of /repo (outside /repo and /verif), then runs the /verif check(s) on it.
 SRC="$1"; PID="$2"; TIER="${3:-quick}"; if [ $# -ge 3 ]; then shift 3; else shift $#; fi
-EV=/tmp/ev_$PID
+EV=/tmp/ev_$(basename $SRC)_$PID
 git -C /repo worktree remove --force $EV >/dev/null 2>&1; rm -rf $EV
 git -C /repo worktree add -q --detach $EV HEAD || exit 2
 cp $(ls $SRC/demo*.py | head -1) $EV/_demo.py; DEMO=$EV/_demo.py
